@@ -37,6 +37,7 @@ type scenario struct {
 	Key       string `json:"key"`    // API key / session token handed out
 	FaultReq  int    `json:"fault_req"`
 	FaultKind string `json:"fault_kind"` // status | malformed | eof | nosuccess | jobfail | stall
+	JobPend   int    `json:"job_pend"`   // the first job_pend polls of the commit job answer PEND
 	GateReq   int    `json:"gate_req"`
 	GateFile  string `json:"gate_file"`
 	Log       string `json:"log"`
@@ -173,6 +174,9 @@ func panos(w http.ResponseWriter, q *http.Request) {
 		w.WriteHeader(403)
 		return
 	}
+	if r.Class == "job" && jobPolls >= sc.JobPend && sc.FaultKind == "jobfail" {
+		r.Fault = "jobfail" // the commit job ends with FAIL
+	}
 	emit(r)
 	switch r.Class {
 	case "login":
@@ -214,7 +218,11 @@ func panos(w http.ResponseWriter, q *http.Request) {
 		io.WriteString(w, `<response status="success" code="19"><result><job>6</job></result></response>`)
 	case "job":
 		res := "OK"
-		if sc.FaultKind == "jobfail" {
+		if jobPolls < sc.JobPend {
+			// the commit job is still running: the tool has to poll again
+			jobPolls++
+			res = "PEND"
+		} else if sc.FaultKind == "jobfail" {
 			res = "FAIL"
 		} else {
 			saved = true
@@ -223,6 +231,8 @@ func panos(w http.ResponseWriter, q *http.Request) {
 		fmt.Fprintf(w, "<response status=\"success\"><result><job>\n<result>%s</result>\n</job></result></response>", res)
 	}
 }
+
+var jobPolls int
 
 func xmlEsc(s string) string {
 	s = strings.ReplaceAll(s, "&", "&amp;")
